@@ -121,8 +121,8 @@ Proof.
   apply N.eqb_neq in K1, K2. tauto.
 Qed.
 
-Lemma valid_material p c : valid p = true -> material_ok p c = true.
-Proof. intros H. destruct (valid_parts p H) as [_ [H1 [H2 _]]]. destruct c; assumption. Qed.
+Lemma valid_core_king p c : valid_core p = true -> count p c King = 1%Z.
+Proof. intros H. apply (valid_core_parts p H). Qed.
 
 Lemma existsb_false_all {A} (f : A -> bool) l x : existsb f l = false -> In x l -> f x = false.
 Proof.
